@@ -2,6 +2,7 @@ package an
 
 import (
 	"go/token"
+	"go/types"
 
 	"golang.org/x/tools/go/ssa"
 )
@@ -261,4 +262,92 @@ func ForwardLoadCtor(load ssa.Value) ([]ssa.Value, *ssa.Call, bool) {
 		vals = append(vals, sts[0].Val)
 	}
 	return vals, call, true
+}
+
+// CopyHelperArg recognises a call of a defensive-copy helper of the module —
+// one slice parameter, a result of the same type, a body that does nothing but
+// test the parameter for nil/emptiness and copy it element by element into a
+// new slice (make+copy, or append onto an empty slice) — and returns the
+// argument: for questions about *content* (which list is this, where do its
+// elements come from) the result is the argument. It is not the same storage;
+// ownership and alias rules must not use this.
+func CopyHelperArg(v ssa.Value) (ssa.Value, bool) {
+	call, ok := v.(*ssa.Call)
+	if !ok {
+		return nil, false
+	}
+	fn := call.Call.StaticCallee()
+	if fn == nil || fn.Blocks == nil || !InModule(fn) || len(fn.Blocks) > 6 {
+		return nil, false
+	}
+	sig := fn.Signature
+	if sig.Recv() != nil || sig.Params().Len() != 1 || sig.Results().Len() != 1 || len(call.Call.Args) != 1 {
+		return nil, false
+	}
+	if _, isSlice := sig.Params().At(0).Type().Underlying().(*types.Slice); !isSlice {
+		return nil, false
+	}
+	if !types.Identical(sig.Params().At(0).Type(), sig.Results().At(0).Type()) {
+		return nil, false
+	}
+	prm := fn.Params[0]
+	copies := false
+	clean := true
+	EachInstr(fn, func(in ssa.Instruction) {
+		switch x := in.(type) {
+		case *ssa.Call:
+			b, isB := x.Call.Value.(*ssa.Builtin)
+			if !isB {
+				clean = false
+				return
+			}
+			switch b.Name() {
+			case "copy":
+				if len(x.Call.Args) == 2 && x.Call.Args[1] == ssa.Value(prm) {
+					copies = true
+				}
+			case "append":
+				if len(x.Call.Args) == 2 && x.Call.Args[1] == ssa.Value(prm) {
+					copies = true
+				}
+			case "len", "cap":
+			default:
+				clean = false
+			}
+		case *ssa.Store, *ssa.MapUpdate, *ssa.Go, *ssa.Defer, *ssa.Send:
+			// (the varargs packing of append does not occur: append(x, s...) passes s itself)
+			clean = false
+		}
+	})
+	if !copies || !clean {
+		return nil, false
+	}
+	for _, ret := range Returns(fn) {
+		for _, r := range ResolveAll(RetVal(ret, 0)) {
+			switch y := r.(type) {
+			case *ssa.Const:
+				if !IsNilConst(y) {
+					return nil, false
+				}
+			case *ssa.Parameter, *ssa.MakeSlice, *ssa.Slice, *ssa.Call:
+			default:
+				return nil, false
+			}
+		}
+	}
+	return call.Call.Args[0], true
+}
+
+// ContentOf resolves v and looks through defensive-copy helpers: the value
+// whose elements v holds.
+func ContentOf(v ssa.Value) ssa.Value {
+	for i := 0; i < 4; i++ {
+		r := Resolve(v)
+		arg, ok := CopyHelperArg(r)
+		if !ok {
+			return r
+		}
+		v = arg
+	}
+	return Resolve(v)
 }
